@@ -140,7 +140,7 @@ def gen_history(rnd: random.Random, nsteps: int, profile: str = 'mixed', big: bo
     weights = {
         'mixed': dict(add=3, adds=2, topack=4, topack_stream=1, pack=3, clean=2, repack=2, delete=2, loosen=1, imp=2, reopen=1, reinit=1),
         'norepack': dict(add=3, adds=1, topack=5, topack_stream=1, pack=4, clean=2, imp=2, reopen=2, newhandle=2, loosen=1),
-        'dedup': dict(add=4, adds=1, topack=6, pack=2, clean=1, reopen=1, damage_loose=2),
+        'dedup': dict(add=4, adds=1, topack=6, pack=2, clean=1, reopen=1, damage_loose=2, imp=2, src_add=1),   # imports of content the destination holds (loose or packed)
         'delete': dict(add=3, topack=3, pack=2, clean=1, delete=3, repack=2, plant_dup=1),
         'modes': dict(add=3, topack=2, pack=4, repack=5, clean=1, imp=2, src_add=2),
         'import': dict(add=1, topack=1, pack=1, imp=6, src_add=3, src_pack=1, reopen=1),
